@@ -44,6 +44,30 @@ def _calls(node, name):
     return out
 
 
+def _subst_locals(expr, fn, depth: int = 0):
+    """`expr` with every local name that `fn` binds exactly once by a plain `name = <expression>` (and never stores to
+    otherwise) replaced by that expression; parameters and everything else stay. Fail-closed use only: the result is matched
+    against the known guards."""
+    import copy
+    binds: dict[str, list] = {}
+    for n in ast.walk(fn):
+        if isinstance(n, ast.Assign) and len(n.targets) == 1 and isinstance(n.targets[0], ast.Name):
+            binds.setdefault(n.targets[0].id, []).append(n.value)
+        elif isinstance(n, (ast.AugAssign, ast.AnnAssign, ast.For, ast.NamedExpr, ast.comprehension)):
+            for x in ast.walk(n.target):
+                if isinstance(x, ast.Name):
+                    binds.setdefault(x.id, []).extend([None, None])
+    params = {a.arg for a in fn.args.posonlyargs + fn.args.args + fn.args.kwonlyargs}
+
+    class T(ast.NodeTransformer):
+        def visit_Name(self, node):
+            vals = binds.get(node.id)
+            if isinstance(node.ctx, ast.Load) and node.id not in params and vals and len(vals) == 1 and vals[0] is not None and depth < 4:
+                return _subst_locals(copy.deepcopy(vals[0]), fn, depth + 1)
+            return node
+    return ast.fix_missing_locations(T().visit(copy.deepcopy(expr)))
+
+
 def _record_outcomes():
     import extract
     sites = []
@@ -68,10 +92,16 @@ def _record_outcomes():
                     guard = n
         if guard is None:
             raise _err(f"{fname}: update_states_in_database is called unconditionally")
-        test = ast.unparse(guard.test)
-        if test in ("report.outcome == TaskOutcome.SUCCESS", "TaskOutcome.SUCCESS == report.outcome"):
+        # local aliases (`was_persisted = …`, `exc = report.exc_info[1]`) are substituted before the guard is classified
+        gtest = _subst_locals(guard.test, fn)
+        test = ast.unparse(gtest)
+        conj = gtest.values if isinstance(gtest, ast.BoolOp) and isinstance(gtest.op, ast.And) else [gtest]
+        conj = [ast.unparse(c) for c in conj]
+        if test in ("report.outcome == TaskOutcome.SUCCESS", "TaskOutcome.SUCCESS == report.outcome",
+                    "report.outcome is TaskOutcome.SUCCESS"):
             out.append("SUCCESS")
-        elif "isinstance(report.exc_info[1], Persisted)" in test and " or " not in test and "not " not in test:
+        elif "isinstance(report.exc_info[1], Persisted)" in conj and all(
+                c in ("isinstance(report.exc_info[1], Persisted)", "report.exc_info", "report.exc_info is not None") for c in conj):
             out.append("PERSISTENCE")
         else:
             raise _err(f"{fname}: unrecognised guard {test!r} around update_states_in_database")
@@ -120,7 +150,7 @@ def _rows_single_transaction():
             raise _err("update_states_in_database: the session block does not loop over node_and_neighbors(session.dag, task_signature)")
         if _calls(loops[0], "commit") or len(commits_in_with) != 1 or w.body.index(commits_in_with[0]) < w.body.index(loops[0]):
             raise _err("update_states_in_database: expected exactly one commit, after the loop, inside the session block")
-        if "node.state()" not in ast.unparse(loops[0]):
+        if ".state()" not in ast.unparse(loops[0]):   # (which node: checked precisely by extract_engine._update_rows)
             raise _err("update_states_in_database: the stored hash is not node.state() of the loop's node")
         helper = extract._func(mod, "_create_or_update_state")
         if _calls(helper, "commit") or "DatabaseSession()" in ast.unparse(helper):
